@@ -130,6 +130,8 @@ type Dump struct {
 	Consts    []ConstInfo          `json:"consts"`
 	Contracts []ContractLine       `json:"contracts"`
 	StructDecls map[string][]Field `json:"struct_decls"`
+	PkgNames  map[string]string    `json:"pkg_names"`
+	DepVars   map[string]string    `json:"dep_vars"`
 }
 
 var (
@@ -570,7 +572,9 @@ func main() {
 		os.Exit(2)
 	}
 	nerr := 0
+	dump.PkgNames = map[string]string{}
 	packages.Visit(pkgs, nil, func(p *packages.Package) {
+		dump.PkgNames[p.PkgPath] = p.Name
 		if inRepoPath(p.PkgPath) {
 			for _, e := range p.Errors {
 				fmt.Fprintln(os.Stderr, "pkg error:", e)
@@ -645,6 +649,25 @@ func main() {
 					if named, ok := obj.Type().(*types.Named); ok && types.IsInterface(named) {
 						ifaces = append(ifaces, named)
 					}
+				}
+			}
+		}
+	}
+
+	// exported package variables of the direct dependencies (so contracts can name e.g. statemachine.ErrTerminated)
+	dump.DepVars = map[string]string{}
+	for _, p := range pkgs {
+		if skip(p.PkgPath) {
+			continue
+		}
+		for _, imp := range p.Imports {
+			if inRepoPath(imp.PkgPath) || imp.Types == nil {
+				continue
+			}
+			sc := imp.Types.Scope()
+			for _, n := range sc.Names() {
+				if v, ok := sc.Lookup(n).(*types.Var); ok && v.Exported() {
+					dump.DepVars[imp.PkgPath+"."+n] = regType(v.Type())
 				}
 			}
 		}
